@@ -3307,15 +3307,16 @@ class FocusedSeq(Construct):
                 this = Container(_ = this, _params = this['_params'], _root = None, _parsing = False, _building = True, _sizing = False, _subcons = None, _io = io, _index = this.get('_index', None))
                 this['_root'] = this['_'].get('_root', this)
                 try:
-                    this[{repr(self.parsebuildfrom)}] = obj
+                    parsebuildfrom = {repr(self.parsebuildfrom)}
+                    this[parsebuildfrom] = obj
                     finalobj = obj
         """
         for sc in self.subcons:
             block += f"""
-                    {f'obj = {"finalobj" if sc.name == self.parsebuildfrom else "None"}'}
+                    {f'obj = finalobj if {repr(sc.name)} == parsebuildfrom else None'}
                     {f'buildret = '}{sc._compilebuild(code)}
                     {f'this[{repr(sc.name)}] = buildret' if sc.name else ''}
-                    {f'{"finalret = buildret" if sc.name == self.parsebuildfrom else ""}'}
+                    {f'if {repr(sc.name)} == parsebuildfrom: finalret = buildret'}
             """
         block += f"""
                     pass
